@@ -181,7 +181,11 @@ pub fn generate(prop: &str, master: u64, index: u64, thorough: bool, ctx: &mut R
     for i in 0..len {
         let step = match (preset.as_ref(), plan.ord_bulk) {
             (Some(p), _) => p[i].clone(),
-            (None, Some((n, pat))) if i == 0 && (!miri || n <= 300) => Step::plain(match cfg.world {
+            // segment tree: a value that expires exactly now and a full query come first, so that
+            // the bulk happens on a tree that has been queried at this very time
+            (None, Some(_)) if i == 0 && cfg.world == WorldKind::Seg && (plan.len > 12) => Step::plain(Op::SIns { a: cfg.seg_lo, b: cfg.seg_hi, exp: if cfg.key_ty == 1 { cfg.t0.clamp(0, 255) } else { cfg.t0 } }),
+            (None, Some(_)) if i == 1 && cfg.world == WorldKind::Seg && (plan.len > 12) => Step::plain(Op::SQuery { a: cfg.seg_lo, b: cfg.seg_hi, take: -1 }),
+            (None, Some((n, pat))) if (if cfg.world == WorldKind::Seg && plan.len > 12 { i == 2 } else { i == 0 }) && (!miri || n <= 300) => Step::plain(match cfg.world {
                 WorldKind::Key => Op::KBulk { n, pat },
                 WorldKind::Seg => {
                     // one range for all copies: the whole domain, a single point at either end, or the lower half
